@@ -370,6 +370,18 @@ def gen_program(rng):
             alias = 'al' + name[1]
             parts.append('\\let\\%s=\\%s ' % (alias, name))
             defined.append((alias,) + defined[-1][1:])
+    # redefinitions: \renewcommand over anything, \def over anything (the new meaning is the one in force afterwards)
+    if rng.random() < 0.4:
+        old = rng.choice(defined)
+        name = old[0]
+        if rng.random() < 0.5:
+            parts.append('\\renewcommand{\\%s}[1]{<R%s[#1]>}' % (name, name[-1]))
+            new = (name, 'newcommand', 1, None)
+        else:
+            parts.append('\\def\\%s#1{<D%s[#1]>}' % (name, name[-1]))
+            new = (name, 'def', 1, [''])
+        # aliases made by \let keep the old meaning: only the redefined name changes
+        defined = [new if d[0] == name else d for d in defined]
     uses = []
     for _ in range(rng.randrange(1, 5)):
         m = rng.choice(defined)
